@@ -204,7 +204,7 @@ def build(fmt: str, rng):
             st = {g: rng.choice("AAZF") for g in hot_g}
             for g in range(2, 300):
                 st[g] = "A"
-            sf, layer, meta = wvmdk.build_sesparse(rng, capacity=cap, grain=grain, gt_sectors=gts, states=st, placement="shuffle", tag=tag, big_index=True)
+            sf, layer, meta = wvmdk.build_sesparse(rng, capacity=cap, grain=grain, gt_sectors=gts, states=st, placement="shuffle", tag=tag, big_index=True, huge_index=True)
             # push some grain indices beyond 2^31 (file offsets beyond 2^44)
             hot = [g * grain * SECTOR for g in sorted(hot_g)]
         elif fmt == "vmdk-stream":
